@@ -153,6 +153,7 @@ type Exec struct {
 	tmCache    *tmInfo
 	ghostTypes map[string]types.Type
 	rawGhost   map[string]bool
+	sct        scenarioT
 }
 
 func (e *Exec) note(format string, a ...interface{}) {
